@@ -201,6 +201,10 @@ pub enum Step {
     ArmTracePanic { k: u8 },
     /// the k-th destructor run by the next arena drop panics (fault injection for C04 / C11)
     ArmDropPanic { k: u8 },
+    /// the k-th destructor run by the next collection call panics (once)
+    ArmSweepPanic { k: u8 },
+    /// the arena is dropped while the thread unwinds from an unrelated panic
+    DropArenaUnwinding { arena: u8 },
     NewArena { preset: u8, fallible: bool, outcome: Outcome, ops: Vec<MutOp> },
     DropArena { arena: u8 },
     /// finish_cycle(); finish_cycle(); then the exactness oracle
